@@ -81,10 +81,13 @@ def run(run, tier, seed):
             ns = rng.randint(2, 10) if ci >= 6 else [9, 10, 8, 2, 10, 9][ci]
             length = rng.randint(max(200, 4 * k), 600) if k > 7 else rng.randint(3 * k, 40 if k == 5 else 90)
             sc = derive.snp_scenario(rng, k, ns, length, rng.randint(1, 8 if k > 7 else 2))
+            if ci < 6:                   # one private substitution per sample: all output rows differ
+                length = max(length, ns * (k + 6) + 2 * k)
+                sc = derive.snp_scenario(rng, k, ns, length, ns, private=True)
             for _ in range(20):          # the first cases (9/10 samples) are wanted under the strict precondition
                 if ci >= 6 or (sc is not None and sc["pre_strict"]):
                     break
-                sc = derive.snp_scenario(rng, k, ns, length, rng.randint(1, 6))
+                sc = derive.snp_scenario(rng, k, ns, length, ns, private=True)
             if sc is None:
                 continue
             sb.reset()
